@@ -1222,10 +1222,10 @@ def run(ctx):
             if getattr(ctx, "hung", False):
                 ctx.note("C14: exploration stopped after a non-terminating open")
                 break
-            if (time.time() - ctx.t0 > (110 if not ctx.thorough else 800)
+            if (time.process_time() > (110 if not ctx.thorough else 800)
                     and not os.environ.get("VERIF_NO_WALL_GUARD")):
                 # (VERIF_NO_WALL_GUARD=1: explore the full seeded case list on a loaded machine)
-                ctx.note(f"C14: wall budget reached after {tag} worlds")
+                ctx.note(f"C14: CPU budget reached after {tag} worlds")
                 break
             world = World(ctx, env, tag, files)
             try:
